@@ -187,9 +187,26 @@ def pick_dtype(rng, els):
     return 'float64'
 
 
+class DerivationError(Exception):
+    """a derivation step (all of them valid requests) raised in the code under test"""
+
+    def __init__(self, step, exc, recipe=None):
+        super().__init__(f'{step}: {type(exc).__name__}: {exc}')
+        self.step, self.exc, self.recipe = step, exc, recipe
+
+
 def apply_steps(arr, view, steps):
-    import numpy as np
     for st in steps:
+        try:
+            arr, view = _apply_step(arr, view, st)
+        except Exception as e:
+            raise DerivationError(st, e)
+    return arr, view
+
+
+def _apply_step(arr, view, st):
+    import numpy as np
+    if True:
         op = st[0]
         if op == 'slice':
             sl = slice(st[1], st[2], st[3])
@@ -284,7 +301,11 @@ class Case:
         self.dtype = dtype
         self.recipe = {'kind': kind, 'elements': els, 'steps': steps, 'dtype': dtype}
         base = build(kind, els, dtype)
-        self.arr, self.view = apply_steps(base, list(els), steps)
+        try:
+            self.arr, self.view = apply_steps(base, list(els), steps)
+        except DerivationError as e:
+            e.recipe = self.recipe
+            raise
         from .registry import note_input
         note_input(self.recipe, nontrivial=any(e is not None for e in self.view))
 
